@@ -94,6 +94,7 @@ type Ctx struct {
 	Workers         int
 	WorkDir         string
 	ReplayMode      bool
+	Shard, NShards  int // this process handles indices i with i % NShards == Shard in ForEach
 
 	start time.Time
 
@@ -127,6 +128,7 @@ func NewCtx(id, phase, tier string, seed int64, outPath string) *Ctx {
 		ID: id, Phase: phase, Tier: tier, Seed: seed,
 		Thorough:  tier == "thorough",
 		Workers:   w,
+		NShards:   1,
 		WorkDir:   filepath.Join(Root, "work", id),
 		start:     time.Now(),
 		counters:  map[string]*atomic.Int64{},
@@ -339,18 +341,24 @@ func (c *Ctx) ParallelN(n int, fn func(w int)) {
 // fn receives the worker id and the index.
 func (c *Ctx) ForEach(n int, fn func(w, i int)) {
 	var next atomic.Int64
-	const chunk = 64
+	chunk := int64(64)
+	if int64(n) < chunk*int64(c.Workers)*4 {
+		chunk = 1
+	}
 	c.Parallel(func(w int) {
 		for {
-			lo := int(next.Add(chunk)) - chunk
+			lo := int(next.Add(chunk) - chunk)
 			if lo >= n {
 				return
 			}
-			hi := lo + chunk
+			hi := lo + int(chunk)
 			if hi > n {
 				hi = n
 			}
 			for i := lo; i < hi; i++ {
+				if c.NShards > 1 && i%c.NShards != c.Shard {
+					continue
+				}
 				fn(w, i)
 			}
 		}
